@@ -108,7 +108,7 @@ CHECKS = {
     "C09": dict(
         level="other", design="4/C09",
         technique="Lean 4 proof of the writer protocol (line accounting and entry positions for all call sequences) tied to the code by replaying every recorded real call sequence; per-input validation of op-to-statement attribution through recompilation and the proven checker",
-        text="Proof (K3): for every sequence of writer calls the line counter equals 1 + newlines written (also with multi-line strings), and an entry recorded before a statement names the 0-based line and the column where its text begins (ESV.C09.writer_line_inv, writer_entry_pos, writer_entry_inline_pos); the real decompilers' recorded call sequences are replayed through the Lean writer on every run and must give the identical text and map. Validation per input: keys are input offsets, entries sit at statement starts, every printed op has an entry, and after compiling the emitted text the op related to it by the proven checker is on the same line.",
+        text="Proof (K3): for every sequence of writer calls the line counter equals 1 + newlines written (also with multi-line strings), and an entry recorded before a statement names the 0-based line and the column where its text begins (ESV.C09.writer_line_inv, writer_entry_pos, writer_entry_inline_pos); the real decompilers' recorded call sequences are replayed through the Lean writer on every run and must give the identical text and map. SsbScript decompiler (which also writes the fallback text): modelled at character level as a fold of those writer calls (lean/ESV/SsbScript/Text.lean: text, add_opcode calls, position marks, exception classes) and compared exactly with SsbScriptSsbDecompiler.convert(prefix) on every run (generated and random routine sets, with and without prefix); for ALL routine sets and prefixes ESV.C09.ssbs_entry_per_op (one entry per printed op, keyed by its offset, in order), ssbs_entry_points_at_statement (the entry names an existing line of the text, column 4, where the op's name and an opening parenthesis begin), ssbs_line_of_next (strictly increasing lines) and ssbs_text_prints_ast (the text is the printed statement AST of the C07 model). Validation per input: keys are input offsets, entries sit at statement starts, every printed op has an entry, and after compiling the emitted text the op related to it by the proven checker is on the same line.",
         note=COMMON_NOTE + "Which op a statement belongs to is decided by unmodelled graph passes: validated per explored input. The compile-time map of the emitted text is the reference (C08)."),
     "C13": dict(
         level="translation_validation", design="4/C13",
